@@ -1,6 +1,6 @@
 SPECIFICATION MCSpec
 CONSTANTS
-  Consuming = TRUE
+  PersistCursor = TRUE
   MaxOps = 4
   MaxReopens = 2
   MaxIndex = 3
